@@ -76,6 +76,15 @@ inductive Stmt where
       parameter types.  It has a meaning only in a program (`exec` with the list of its functions); for a
       single function (`runC`: the empty program) it has none. -/
   | call (dst : Option (Nat × Ty)) (rt : Ty) (fn : String) (args : List Expr)
+  /-- `T a[n];` — variable `i` is an array of `n ≥ 1` elements of type `t`, not initialised.  Element 0 is the
+      cell `i` itself (so that the variable read or assigned as a scalar is `a[0]`, in C `*a`); the elements
+      `1 … n-1` are the cells `xb, xb+1, …`, which lie after the cells of all variables (`xbase`). -/
+  | adecl (i : Nat) (t : Ty) (n xb : Nat)
+  /-- `x = a[idx];` — `x` (variable `dst`) has type `dt`; the parser has inserted the conversion when
+      `dt ≠ t` -/
+  | aload (dst : Nat) (dt : Ty) (arr : Nat) (t : Ty) (n xb : Nat) (idx : Expr)
+  /-- `a[idx] = e;` — `e` already converted to the element type `t` -/
+  | astore (arr : Nat) (t : Ty) (n xb : Nat) (idx : Expr) (e : Expr)
   deriving Repr, Inhabited
 
 inductive Outcome where
@@ -131,6 +140,7 @@ def declIdx : Stmt → List Nat
   | .dowhile b _ => declIdx b
   | .for_ _ st b => declIdx st ++ declIdx b
   | .switch_ _ b => declIdx b
+  | .adecl i _ n xb => i :: (List.range (n - 1)).map (xb + ·)
   | _ => []
 
 /-- The objects whose lifetime starts with the statement become indeterminate (6.2.4p6) — a jump to a
@@ -145,12 +155,32 @@ structure Func where
   params : List Ty
   locals : List Ty
   body : Stmt
+  /-- number of elements of the locals that are arrays (`lcnts[j]` for local `j`; missing entries and
+      scalars: 1) -/
+  lcnts : List Nat := []
   deriving Repr, Inhabited
 
 def Func.vtys (f : Func) : List Ty := f.params ++ f.locals
 
-/-- The store on entry: the arguments, every local indeterminate. -/
-def initStore (f : Func) (ρ : List Int) : Store := ρ.map some ++ List.replicate f.locals.length none
+/-- number of elements of every variable (1 for a scalar) -/
+def Func.cnts (f : Func) : List Nat :=
+  f.params.map (fun _ => 1) ++ (List.range f.locals.length).map fun j => f.lcnts.getD j 1
+
+/-- the cells of the elements `1 …` of the arrays among the first `k` variables -/
+def xcount (cnts : List Nat) (k : Nat) : Nat := ((cnts.take k).map (· - 1)).sum
+
+/-- cell of element 1 of the array variable `k`: after the cells of all variables and of the earlier arrays -/
+def xbase (cnts : List Nat) (k : Nat) : Nat := cnts.length + xcount cnts k
+
+/-- number of cells beyond one per variable -/
+def Func.extra (f : Func) : Nat := xcount f.cnts f.cnts.length
+
+/-- cell of element `e` of the array variable `arr` -/
+def ecell (arr xb e : Nat) : Nat := if e = 0 then arr else xb + (e - 1)
+
+/-- The store on entry: the arguments, every local (and every array element) indeterminate. -/
+def initStore (f : Func) (ρ : List Int) : Store :=
+  ρ.map some ++ List.replicate (f.locals.length + f.extra) none
 
 /-- The function a call names: the first function of the program with that name. -/
 def lookup (P : List Func) (fn : String) : Option Func := P.find? fun g => g.name == fn
@@ -239,6 +269,18 @@ def exec (cs : Bool) (P : List Func) : Nat → Store → Stmt → Option Outcome
         match exec cs P n (clear s (declIdx b)) b' with
         | some (.brk s') => some (.normal s')
         | o => o
+  | _ + 1, s, .adecl i _ n xb => some (.normal (clear s (i :: (List.range (n - 1)).map (xb + ·))))
+  | _ + 1, s, .aload dst dt arr t n xb idx =>
+    -- 6.5.2.1, 6.5.6p8: the element must exist; 6.3.2.1p2: and hold a value
+    (evalE cs s idx).bind fun iv =>
+      if 0 ≤ iv ∧ iv < (n : Int) then
+        ((s[ecell arr xb iv.toNat]?).join).map fun v =>
+          .normal (s.set dst (some (conv (t.intTy cs) (dt.intTy cs) v)))
+      else none
+  | _ + 1, s, .astore arr _ n xb idx e =>
+    (evalE cs s e).bind fun v => (evalE cs s idx).bind fun iv =>
+      if 0 ≤ iv ∧ iv < (n : Int) then some (.normal (s.set (ecell arr xb iv.toNat) (some v)))
+      else none
 
 /-- The value the call returns: `some v` if the body executes a `return` with value `v` within
     `fuel`; flowing off the end of the function without `return` counts as undefined here (its
@@ -360,6 +402,14 @@ def Stmt.wt (vtys : List Ty) (ret : Ty) : Bool → Bool → Nat → Stmt → Opt
   | _, _, nd, .default_ => some nd
   | _, _, nd, .call dst _ _ args =>
     if args.all (fun e => e.wt (vtys.take nd)) = true ∧ dstOK vtys nd dst = true then some nd else none
+  | _, _, nd, .adecl i t _ _ => if i = nd ∧ vtys[i]? = some t then some (nd + 1) else none
+  | _, _, nd, .aload dst dt arr t _ _ idx =>
+    if dst < nd ∧ vtys[dst]? = some dt ∧ arr < nd ∧ vtys[arr]? = some t ∧ idx.wt (vtys.take nd) = true
+    then some nd else none
+  | _, _, nd, .astore arr t _ _ idx e =>
+    if arr < nd ∧ vtys[arr]? = some t ∧ idx.wt (vtys.take nd) = true ∧ e.ty = t ∧
+        e.wt (vtys.take nd) = true
+    then some nd else none
 
 /-- every call names a function of the program, with arguments of the parameter types and the
     declared return type -/
@@ -371,15 +421,44 @@ def callsOK (P : List Func) : Stmt → Bool
   | .while_ _ b => callsOK P b
   | .dowhile b _ => callsOK P b
   | .for_ _ st b => callsOK P st && callsOK P b
-  | .case_ _ | .default_ => true
+  | .case_ _ | .default_ | .adecl .. | .aload .. | .astore .. => true
   | .switch_ _ b => callsOK P b
   | .call _ rt fn args =>
     match lookup P fn with
     | some g => g.ret == rt && args.map (·.ty) == g.params
     | none => false
 
+/-- the array statements agree with the layout: the declared count of the variable, at least one element,
+    the cells of its further elements -/
+def arrsOK (cnts : List Nat) : Stmt → Bool
+  | .skip | .decl .. | .assign .. | .incdec .. | .expr _ | .ret _ | .break_ | .continue_ => true
+  | .seq a b => arrsOK cnts a && arrsOK cnts b
+  | .ite _ a => arrsOK cnts a
+  | .itee _ a b => arrsOK cnts a && arrsOK cnts b
+  | .while_ _ b => arrsOK cnts b
+  | .dowhile b _ => arrsOK cnts b
+  | .for_ _ st b => arrsOK cnts st && arrsOK cnts b
+  | .case_ _ | .default_ | .call .. => true
+  | .switch_ _ b => arrsOK cnts b
+  | .adecl i _ n xb => decide (1 ≤ n) && decide (cnts[i]? = some n) && decide (xb = xbase cnts i)
+  | .aload _ _ arr _ n xb _ => decide (1 ≤ n) && decide (cnts[arr]? = some n) && decide (xb = xbase cnts arr)
+  | .astore arr _ n xb _ _ => decide (1 ≤ n) && decide (cnts[arr]? = some n) && decide (xb = xbase cnts arr)
+
+/-- a variable declared as a scalar has one element -/
+def declsOK (cnts : List Nat) : Stmt → Bool
+  | .decl i _ _ => decide (cnts[i]? = some 1)
+  | .seq a b => declsOK cnts a && declsOK cnts b
+  | .ite _ a => declsOK cnts a
+  | .itee _ a b => declsOK cnts a && declsOK cnts b
+  | .while_ _ b => declsOK cnts b
+  | .dowhile b _ => declsOK cnts b
+  | .for_ _ st b => declsOK cnts st && declsOK cnts b
+  | .switch_ _ b => declsOK cnts b
+  | _ => true
+
 def Func.wt (f : Func) : Bool :=
-  f.body.labelFree && Stmt.wt f.vtys f.ret false false f.params.length f.body == some f.vtys.length
+  f.body.labelFree && Stmt.wt f.vtys f.ret false false f.params.length f.body == some f.vtys.length &&
+    arrsOK f.cnts f.body && declsOK f.cnts f.body && decide (f.extra ≤ 1000000)
 
 def WT (f : Func) : Prop := f.wt = true
 
